@@ -1,4 +1,6 @@
 """C05 - margin account invariant and NLV decomposition (engine BL)."""
+from tradingenv.broker.broker import EndOfEpisodeError
+
 from vf import bl
 
 PROP = "C05"
@@ -19,7 +21,7 @@ ASSUMPTIONS = [
 REQUIRED = ["C05:margin@valuation", "C05:margin@trade", "C05:margin@mark-all", "C05:margin@mark-one",
             "C05:decomposition@valuation", "C05:weight@weights", "C05:context-consistent", "C05:no-margin-for-spot@valuation",
             "C05:margin-vs-ledger"]
-REQUIRED_CATS = ["episode:chain", "episode:plain"]
+REQUIRED_CATS = ["episode:chain", "episode:plain", "flat-margined-contract-discontinued", "liquidation-quote-exactly-zero"]
 REQUIRED_HITS = ["Broker.transact", "Broker.marking_to_market", "Broker.net_liquidation_value", "Broker.context",
                  "Broker.holdings_weights"]
 TECHNIQUE = "runtime monitoring: invariant post-conditions inside hooks on the broker's valuation/marking/trading entry points"
@@ -52,7 +54,14 @@ def episode(ctx, chain):
                 a = np.array([rng.choice([0, rng.uniform(-1.5, 1.5)]), rng.uniform(-0.3, 0.5)])
             else:
                 a = np.array([rng.choice([0.0, rng.uniform(-0.4, 0.5)]) for _ in cfg["cs"]])
-            o, r, done, info = env.step(a)
+            if cfg.get("nrc"):
+                # positions in numbers of contracts: sized like the weights at the first quotes
+                a = np.array([w * cfg["cash0"] / (cfg["px0"][c] * c.multiplier) for w, c in zip(a, cfg["cs"])])
+            try:
+                o, r, done, info = env.step(a)
+            except EndOfEpisodeError:
+                ctx.cat("episode-ended-by-K1-escape")     # known finding K1 (C09): ruined by the step's own events
+                break
             k += 1
             hq = env.broker.holdings_quantity
             if any(q < 0 and c.margin_requirement != 0 for c, q in hq.items()):
@@ -66,5 +75,7 @@ def episode(ctx, chain):
 def case(ctx, i, tier):
     if i % 8 == 7:
         return episode(ctx, chain=(i % 16 == 15))
+    if i % 8 == 6:
+        return bl.special_quotes(ctx, {"C05", "C01"})
     bl.history(ctx, {"C05"})
     ctx.nontrivial = ctx.notes.get("nt05", False)
